@@ -109,6 +109,14 @@ class FuncC:
     def loop(self, k):
         return self.loops.setdefault(k, LoopC(k))
 
+    def comprehension(self, k, elem):
+        """contract of the k-th list comprehension (in source order) whose element expression has effects (calls a method with a frame):
+        it is executed as the loop  _acc<k> = []; for <target> in <iter>: _acc<k>.append(<elt>)  with index _ic<k> / sequence _seqc<k>;
+        `elem` is the element sort of the result"""
+        lc = self.loops.setdefault("c%d" % k, LoopC("c%d" % k))
+        lc.elem_sort = elem
+        return lc
+
     def ghost_exit(self, stmt):
         self.ghost_exit_l.append(stmt)
         return self
@@ -231,6 +239,16 @@ class ClassC:
         self.methods[name] = fc
         return fc
 
+    def method_variant(self, name, tag, params=None, returns=NONE, **kw):
+        """a second contract for the SAME method under another typing of its parameters (e.g. an int selector / a sequence of ints where
+        the code dispatches with isinstance): verified on its own; callers keep using the main contract"""
+        fc = FuncC(self.unit, self.module, self, name, params, returns, **kw)
+        fc.qualname = "%s.%s[%s]" % (self.name, name, tag)
+        if not hasattr(self, "variants"):
+            self.variants = {}
+        self.variants[(name, tag)] = fc
+        return fc
+
 
 class ModuleC:
     def __init__(self, unit, path):
@@ -334,6 +352,7 @@ class Unit:
     def assume(self, text):
         self.assumptions.append(text)
 
-    def verify(self, cls, fn, concrete=None):
-        """verify method `fn` of class `cls` (None: module-level function); `concrete`: receiver class whose MRO resolves calls"""
-        self.targets.append((cls, fn, concrete))
+    def verify(self, cls, fn, concrete=None, variant=None):
+        """verify method `fn` of class `cls` (None: module-level function); `concrete`: receiver class whose MRO resolves calls;
+        `variant`: verify the body once more under another typing of its parameters (ClassC.method_variant)"""
+        self.targets.append((cls, fn, concrete, variant) if variant else (cls, fn, concrete))
